@@ -68,6 +68,14 @@ def routes(expr, sty):
         "thread_share": ("", "", f"let t = {expr}; std::thread::scope(|s| {{ s.spawn(|| {{ let _u = &t; }}); }});", "", False),
         "channel": ("", "let (tx, rx) = std::sync::mpsc::channel();", f"let _ = tx.send({expr});", "let _got = rx.try_recv();", False),
         "outer_vec": ("", "let mut out = Vec::new();", f"out.push({expr});", "let _o = out;", False),
+        "return_closure": ("", "", f"{{ let t = {expr}; move || {{ let _u = &t; }} }}", "", True),
+        "return_boxed_closure": ("", "", f"{{ let t = {expr}; Box::new(move || {{ let _u = &t; }}) as Box<dyn FnOnce()> }}", "", True),
+        "return_async_block": ("", "", f"{{ let t = {expr}; async move {{ let _u = &t; }} }}", "", True),
+        "return_iterator": ("", "", f"std::iter::once({expr})", "", True),
+        "return_in_option_box": ("", "", f"Some(Box::new({expr}))", "", True),
+        "outer_refcell": ("", "let out = RefCell::new(None);", f"*out.borrow_mut() = Some({expr});", "let _o = out.into_inner();", False),
+        "outer_rc_refcell": ("", "let out = Rc::new(RefCell::new(None)); let out2 = out.clone();", f"*out2.borrow_mut() = Some({expr});", "let _o = out.borrow_mut().take();", False),
+        "once_lock_static": (f"static SLOT: std::sync::OnceLock<{sty}> = std::sync::OnceLock::new();", "", f"let _ = SLOT.set({expr});", "", False),
     }
 
 
@@ -221,6 +229,6 @@ def generate(tier):
     ps.append(Probe("implied-static/ordinary_root_control", ord_src, "reject", group="implied-static"))
     return {
         "probes": ps,
-        "rule": "grammar: branded thing {Gc, fresh Gc, GcWeak, &'gc T, &Mutation, &Finalization, DynamicRootSet, &Write, &Cell from unlock, &Root, Ref, RefMut, nested container} x escape route {return, outer variable, outer Vec, thread_local, T: 'static bound, Box<dyn Any>, scoped thread by move / by share, channel} x entry point {new, try_new, mutate, mutate_root, map_root, try_map_root, finalize, rootless_mutate}; 13-15 cross-arena uses under nested mutate and nested finalize, root swap, foreign builder completion; 8 re-entrant collection calls from mutate and finalize; shrink/grow variance by value and behind & for 18 pointer/context/builder types; Send and Sync for 18 types incl. arenas with plain-data roots; root-type shapes implying 'gc: 'static x 4 entry points x 2 routes. Every negative has a positive twin; non-trivial = negative probes",
+        "rule": "grammar: branded thing {Gc, fresh Gc, GcWeak, &'gc T, &Mutation, &Finalization, DynamicRootSet, &Write, &Cell from unlock, &Root, Ref, RefMut, nested container} x escape route {return, return inside a closure / boxed closure / async block / iterator / Option<Box>, outer variable, outer Vec, outer RefCell, outer Rc<RefCell>, thread_local, static OnceLock, T: 'static bound, Box<dyn Any>, scoped thread by move / by share, channel} x entry point {new, try_new, mutate, mutate_root, map_root, try_map_root, finalize, rootless_mutate}; 13-15 cross-arena uses under nested mutate and nested finalize, root swap, foreign builder completion; 8 re-entrant collection calls from mutate and finalize; shrink/grow variance by value and behind & for 18 pointer/context/builder types; Send and Sync for 18 types incl. arenas with plain-data roots; root-type shapes implying 'gc: 'static x 4 entry points x 2 routes. Every negative has a positive twin; non-trivial = negative probes",
         "assumptions": ["pinned rustc 1.95 decides acceptance", "exhaustive over the stated grammar, not over all safe programs (the universally quantified reading of C12 is not established)"],
     }
